@@ -135,6 +135,10 @@ Fixpoint dedup (l : list (list N)) : list (list N) :=
   | x :: t => if mem_order x t then dedup t else x :: dedup t
   end.
 
+(* the unordered pairs of a list, each once (first component listed first) *)
+Fixpoint pairs (l : list N) : list (N * N) :=
+  match l with [] => [] | x :: t => map (pair x) t ++ pairs t end.
+
 (* ---------------------------------------------------------------------------------------------- *)
 (* Mirror of _is_ordered_profile_single_crossing (the verification pass of is_single_crossing):
      for i in range(1, len(profile) - 1):
